@@ -567,6 +567,21 @@ def load(path):
             b.blocks = None
             bodies.append(b)
             i = j
+        elif (ln.startswith('const ') or ln.startswith('static ')) and ln.endswith(';') and ' = const ' in ln:
+            # one-line form:  const NAME: TY = const VALUE;
+            head, val = ln[:-1].split(' = const ', 1)
+            head = head.split(' ', 1)[1]
+            k = find_top(head, 0, ': ')
+            b = Body()
+            b.kind = 'const'
+            b.name = head[:k].strip()
+            b.ret = head[k + 2:].strip()
+            b.sig = ln
+            b.argc = 0
+            b.argtys = []
+            b.raw = ['    bb0: {', '        _0 = const %s;' % val, '        return;', '    }']
+            b.blocks = None
+            bodies.append(b)
         elif (ln.startswith('const ') or ln.startswith('static ') or ln.startswith('promoted[')) and ln.endswith('= {'):
             j = i + 1
             while lines[j] != '}':
